@@ -62,6 +62,13 @@ class Settings:
             elif k == "subst":
                 a, b = rest.split(" => ")
                 s = eng.call("TypeGeneratorSettings::substitute", [], [s, syn_path(a), syn_path(b)])
+            elif k in ("subst_if_absent", "subst_extend"):
+                a, b = rest.split(" => ")
+                ap = eng.call("absolute_path", [], [syn_path(b)])
+                if ap.idx == 1: raise Panic("absolute_path rejected " + b)
+                if k == "subst_if_absent": r = eng.call("TypeSubstitutes::insert_if_not_exists", [], [Slot(s.f, 3), syn_path(a), ap.f[0]])
+                else: r = eng.call("TypeSubstitutes::extend", [], [Slot(s.f, 3), VecV([Agg("()", [syn_path(a), ap.f[0]])])])
+                if r.idx == 1: raise Panic("substitute rejected: " + rest)
             else: raise ValueError("settings directive " + d)
         return s
 
